@@ -20,7 +20,8 @@ including those of 4 GiB and more that no test visits - breaks that proof."""
 import os, re, sys
 sys.path.insert(0, os.path.dirname(os.path.abspath(__file__)))
 from extract_simd import TranslateError, matching
-from extract_scalar import P, SP, Fn, parse_fns, WIDTH, lean_ty
+from extract_scalar import P, SP, Fn, parse_fns, WIDTH, lean_ty, retok
+from extract_simd import tokenize
 
 UW = dict(WIDTH, usize=64)
 
@@ -1075,6 +1076,78 @@ def generate_system(repo, out_dir, write):
     write(os.path.join(out_dir, "EffectSystem.lean"), text)
 
 
+class MulFn(ShufFn):
+    """the closure of `Random::multiple`: one item.  `buf[e] = elem` is the event `MulEv.store e i` (an indexing store: out of bounds panics),
+    `if let Some(slot) = buf.get_mut(e) { *slot = elem; }` the event `MulEv.storeIf e i` (nothing happens out of bounds); `i` is the item's
+    position, `amount` = `buf.len()`, `len` the running count."""
+    LOGTY = "List MulEv"
+
+    def __init__(self, name, body_toks):
+        ShufFn.__init__(self, name, body_toks)
+        for n in ("len", "amount", "i"):
+            self.env[n] = ("var", n, ("u", 64))
+
+    def is_store(self, e):
+        return e[0] == "call" and e[1] in ("__store", "__store_if")
+
+    def run(self, stmts):
+        for s in stmts:
+            if s[0] == "expr" and self.is_store(s[1]) and len(s[1][2]) == 1:
+                a, _ = self.expr(s[1][2][0], ("u", 64))
+                self.lines.append("let log := log ++ [MulEv.%s %s i]" % ("store" if s[1][1] == "__store" else "storeIf", a))
+            else:
+                EffFn.run(self, [s])
+
+
+def random_multiple(repo):
+    raw, _ = parse_fns(open(os.path.join(repo, "src/random.rs")).read())
+    cands = [f for f in raw.get("multiple", []) if f[0] and f[0][0][0] == "self"]
+    if len(cands) != 1:
+        raise TranslateError("src/random.rs: multiple not found (or not unique)")
+    params, ret, toks = cands[0]
+    if [p[0] for p in params] != ["self", "collection", "buf"]:
+        raise TranslateError("multiple: signature %r" % ([p[0] for p in params],))
+    T = lambda txt: retok(tokenize(txt))
+    pre = T("let amount = buf.len(); let mut len = 0; collection.into_iter().enumerate().for_each(|(i, elem)| {")
+    post = T("}); len")
+    if toks[:len(pre)] != pre or toks[-len(post):] != post:
+        raise TranslateError("multiple: the body is not `let amount = buf.len(); let mut len = 0; collection.into_iter().enumerate().for_each(|(i, elem)| { .. }); len`")
+    body = toks[len(pre):-len(post)]
+    # the two kinds of store
+    st1, st2a, st2b = T("buf["), T("] = elem;"), None
+    out, i = [], 0
+    gm = T("if let Some(slot) = buf.get_mut(")
+    gm_end = T(") { *slot = elem; }")
+    while i < len(body):
+        if body[i:i + len(gm)] == gm:
+            j = matching(body, i + len(gm) - 1)
+            if body[j:j + len(gm_end)] != gm_end:
+                raise TranslateError("multiple: `if let Some(slot) = buf.get_mut(..)` with another body")
+            out += [("id", "__store_if"), ("op", "(")] + body[i + len(gm):j] + [("op", ")"), ("op", ";")]
+            i = j + len(gm_end)
+        elif body[i:i + len(st1)] == st1:
+            j = matching(body, i + 1)
+            if body[j:j + len(st2a)] != st2a:
+                raise TranslateError("multiple: a store of something else than the item")
+            out += [("id", "__store"), ("op", "(")] + body[i + 2:j] + [("op", ")"), ("op", ";")]
+            i = j + len(st2a)
+        else:
+            out.append(body[i])
+            i += 1
+    if any(t in (("id", "buf"), ("id", "elem"), ("id", "slot")) for t in out):
+        raise TranslateError("multiple: another use of buf / elem")
+    fn = MulFn("multiple_item", out)
+    fn.lines, fn.result, fn.aux = [], fn.tail, []
+    fn.run(fn.stmts)
+    if fn.result is not None or fn.aux:
+        raise TranslateError("multiple: closure with a value / a loop")
+    item = ("def multiple_item {σ : Type} (index : σ → BitVec 64 → BitVec 64 × σ) (amount : BitVec 64) (st : BitVec 64 × σ × List MulEv) (i_nat : Nat) : BitVec 64 × σ × List MulEv :=\n"
+            "  let (len, rng, log) := st\n  let i := BitVec.ofNat 64 i_nat\n%s\n  (len, rng, log)\n" % "\n".join("  " + l for l in fn.lines))
+    whole = ("def multiple {σ : Type} (index : σ → BitVec 64 → BitVec 64 × σ) (rng : σ) (buf_len : BitVec 64) (items : Nat) : BitVec 64 × σ × List MulEv :=\n"
+             "  let amount := buf_len\n  let len := 0#64\n  (List.range' 0 items).foldl (multiple_item index amount) (len, rng, [])\n")
+    return "namespace random\n" + item + "\n" + whole + "end random\n"
+
+
 def random_index(repo):
     """`Random::index(len)`: the body must be `distr::UniformInt::constant(<base>, <range>).sample(self)`; the two arguments become
     `index_args len = (base, range)` (the sampler itself is translated by extract_scalar.py: `sample_*_usize`)."""
@@ -1102,15 +1175,19 @@ def random_index(repo):
 
 
 def generate_shuffle(repo, out_dir, write):
-    head = ("/- GENERATED by tools/extract_effect.py from src/random.rs (shuffle) on every run - do not edit. -/\n"
-            "set_option linter.unusedVariables false\nnamespace Urandom.Generated.Effect\n\n")
-    try:
-        text = head + random_shuffle(repo) + "\n" + random_partial_shuffle(repo) + "\n" + random_index(repo) + "\nend Urandom.Generated.Effect\n"
-    except Exception as e:
-        msg = ("%s: %s" % (type(e).__name__, e)).replace("-/", "- /")
-        text = ("/- tools/extract_effect.py could not translate the current source: %s -/\n"
-                "namespace Urandom.Generated.Effect\ndef translation_failed_EffectShuffle : Nat := translation_of_the_current_source_failed\nend Urandom.Generated.Effect\n" % msg)
-    write(os.path.join(out_dir, "EffectShuffle.lean"), text)
+    """two files: shuffle / partial_shuffle / index (C05T) and multiple (C07T), so that a change one translation cannot read breaks its own
+    obligations only"""
+    for fname, what, fn in (("EffectShuffle", "shuffle, partial_shuffle, index", lambda r: random_shuffle(r) + "\n" + random_partial_shuffle(r) + "\n" + random_index(r)),
+                            ("EffectMultiple", "multiple", random_multiple)):
+        head = ("/- GENERATED by tools/extract_effect.py from src/random.rs (%s) on every run - do not edit. -/\n"
+                "import Urandom.Model.Effect\nset_option linter.unusedVariables false\nnamespace Urandom.Generated.Effect\nopen Urandom\n\n" % what)
+        try:
+            text = head + fn(repo) + "\nend Urandom.Generated.Effect\n"
+        except Exception as e:
+            msg = ("%s: %s" % (type(e).__name__, e)).replace("-/", "- /")
+            text = ("/- tools/extract_effect.py could not translate the current source: %s -/\n"
+                    "namespace Urandom.Generated.Effect\ndef translation_failed_%s : Nat := translation_of_the_current_source_failed\nend Urandom.Generated.Effect\n" % (msg, fname))
+        write(os.path.join(out_dir, fname + ".lean"), text)
 
 
 def generate_block_fill(repo, out_dir, write):
